@@ -7,6 +7,8 @@ import TetlProofs.C05.StrBits
 import TetlProofs.C05.StrIndex
 import TetlProofs.C05.CarriedAudit
 import TetlProofs.C05.Scalar
+import TetlProofs.C05.ToU
+import TetlProofs.C05.Unsafe
 namespace Tetl.C05.Props
 open Tetl.C05 Tetl.C05.Spec Tetl.C05.Lemmas
 
@@ -19,10 +21,9 @@ theorem sites_accounted : inventory = Carried.guardSites := by decide +kernel
 theorem model_keys_inventoried : Carried.modelKeys.all (fun k => (Carried.guardSites.map (·.1)).contains k) = true :=
   ca_all_keys
 
-/-- the sites carried without a model operation are the 2 internal checks of format_to and, since fix 3da0a12 of branch
-    fix-c17x, the "value fits" contract of bitset::to_ulong / to_ullong (modelled and proved for C17:
-    `Tetl.C17.Props.toUnsigned_eq`, `toUnsigned_overflow`) -/
-theorem unmodelled_count : Carried.unmodelled.length = 3 := ca_unmodelled
+/-- the sites carried without a model operation are the 2 internal checks of format_to (the "value fits" contract of
+    bitset::to_ulong / to_ullong is the model operation `bsToU`) -/
+theorem unmodelled_count : Carried.unmodelled.length = 2 := ca_unmodelled
 
 /-- operations whose equation model = spec is proved below: every operation of the model language (`Proved_all`).
     Kept as a function so that a new operation without a theorem has to be listed here explicitly. -/
@@ -40,7 +41,8 @@ def Proved : Op → Bool
   | .strCtorFill _ _ | .strOpAssign _ | .strAssignFill _ _ | .strFront _ | .strBack _ | .strAt _ _ | .strPop => true
   | .strCtorPtr _ _ | .strAssignPtr _ _ | .strPush _ | .strEraseRng _ _ | .strReplace _ _ _ _ | .strReplaceSub _ _ _ _ _ => true
   | .strInsert _ _ _ | .strInsertFill _ _ _ | .strEraseIdx _ _ => true
-  | .bb _ _ _ | .bs _ _ _ | .bsCtor _ _ _ | .nullChecks _ => true
+  | .bb _ _ _ | .bs _ _ _ | .bsCtor _ _ _ | .nullChecks _ | .bsToU _ => true
+  | .svMoveInsert _ _ _ _ | .svUnsafeSetSize _ _ | .svUnsafeDestroy _ _ | .ivUnsafeSetSize _ | .strUnsafeSetSize _ => true
   | .optDeref _ | .expDeref _ | .expError _ | .varIdx _ _ | .varGet _ _ => true
   | .bit _ _ _ | .divSat _ _ | .dayCtor _ | .monthCtor _ | .stride _ _ | .setCtor _ _ => true
 
@@ -55,6 +57,9 @@ instance (s : St) (pos count : Nat) : Decidable (ReplaceExcluded s pos count) :=
 /-- well-formedness of (configuration, object, operation): the class invariant `size ≤ capacity`, `size_t` arguments,
     the storage base of a static_vector matches its capacity, an engaged expected/variant holds exactly one object, the one-member chrono classes have room for their member, the bit position is a value of the word type, the operands of div_sat are `int` values,
     `array::operator[]` is only claimed where its check is compiled in (SAFE, or a zero-size array) or the index is valid,
+    the "unsafe" size members are claimed for a new size within the constructed elements or beyond the capacity (a size in
+    between exposes unconstructed storage) and `unsafe_destroy` for an empty range or a violating pointer (destroyed elements
+    cannot be read back), `to_ulong` / `to_ullong` need nothing,
     a freshly constructed static_vector is empty, the units inserted into an inplace_string fit (insert clamps silently
     otherwise), and the `replace` overloads are claimed outside the class of known finding F-C05-replace-pre
     (`ReplaceExcluded`) and without size_t wrap of `pos + count` / `pos2 + count2`. -/
@@ -63,9 +68,13 @@ def WF (cfg : Cfg) (s : St) : Op → Prop
   | .svBack _ => s.size < U64
   | .svPush st _ | .svEmplaceBack st _ => StorOk st s ∧ s.cap < U64
   | .svPop st | .svClear st | .svErase st _ | .svEraseRng st _ _ => StorOk st s
-  | .svInsertN st _ _ _ | .svInsertCr st _ _ | .svInsertMv st _ _ | .svEmplace st _ _ | .svInsertRng st _ _ _
+  | .svInsertN st _ _ _ | .svInsertCr st _ _ | .svInsertMv st _ _ | .svEmplace st _ _ | .svInsertRng st _ _ _ | .svMoveInsert st _ _ _
   | .svResize st _ | .svResizeV st _ _ | .svAssignN st _ _ | .svAssignRng st _ _ => StorOk st s ∧ s.cap < U64
   | .svCtorN st _ | .svCtorNV st _ _ | .svCtorRng st _ _ => StorOk st s ∧ s.cap < U64 ∧ s.elems = []
+  | .svUnsafeSetSize st n => StorOk st s ∧ (n ≤ s.size ∨ s.cap < n)
+  | .ivUnsafeSetSize n | .strUnsafeSetSize n => n ≤ s.size ∨ s.cap < n
+  | .svUnsafeDestroy f l => (0 ≤ f ∧ f ≤ (s.size : Int)) ∧ (0 ≤ l ∧ l ≤ (s.size : Int)) → f = l
+  | .bsToU _ => True
   | .arAt _ i => cfg.safe = true ∨ i < s.size ∨ s.size = 0
   | .strReplace _ pos count _ => ¬ ReplaceExcluded s pos count
   | .strReplaceSub pos count src pos2 count2 => (pos + count < U64 ∧ pos2 + count2 < U64) ∧ (pos ≠ s.size ∧ pos2 ≠ src.length)
@@ -142,6 +151,12 @@ theorem run_eq_expect (op : Op) (cfg : Cfg) (s : St) (_hp : Proved op = true) (h
   case bb w p v => exact bb_eq w p v cfg s
   case bs w p v => exact bs_eq w p v cfg s
   case bsCtor p n b => exact bsCtor_eq p n b cfg s
+  case bsToU d => exact bsToU_eq d cfg s
+  case svMoveInsert st p xs o => exact svMoveInsert_eq st p xs o cfg s h.1 h.2
+  case svUnsafeSetSize st n => exact svUnsafeSetSize_eq st n cfg s h.1 h.2
+  case svUnsafeDestroy f l => exact svUnsafeDestroy_eq f l cfg s h
+  case ivUnsafeSetSize n => exact ivUnsafeSetSize_eq n cfg s h
+  case strUnsafeSetSize n => exact strUnsafeSetSize_eq n cfg s h
   case nullChecks ks => exact nullChecks_eq ks cfg s
   case strCtorFill n ch => exact strCtorFill_eq n ch cfg s
   case strOpAssign xs => exact strOpAssign_eq xs cfg s
@@ -205,6 +220,51 @@ example : WF ⟨false⟩ ⟨4, [97, 98], 0⟩ (.strInsert 2 1 [120, 121]) ∧ pr
 example : WF ⟨false⟩ ⟨0, [], 0⟩ (.divSat SC.I32min (-1)) ∧ pre ⟨false⟩ ⟨0, [], 0⟩ (.divSat SC.I32min (-1)) = true ∧
     WF ⟨false⟩ ⟨0, [], 0⟩ (.bit 2 8 255) ∧ pre ⟨false⟩ ⟨0, [], 0⟩ (.bit 2 8 255) = false :=
   ⟨by simp only [WF]; decide, by decide, by simp only [WF]; decide, by decide⟩
+
+/-- non-vacuity of the conditions of the members that are driven directly (samples): a full static_vector<int, 3> move_insert,
+    a new size beyond the capacity for the storage's / inplace_vector's / inplace_string's unsafe_set_size, an unsafe_destroy with
+    `last` beyond `end()`, a member of inplace_vector<T, 0> -/
+example : WF ⟨false⟩ ⟨3, [1, 2], 0⟩ (.svMoveInsert .triv 1 [7, 8] true) ∧ pre ⟨false⟩ ⟨3, [1, 2], 0⟩ (.svMoveInsert .triv 1 [7, 8] true) = false :=
+  ⟨by simp only [WF, StorOk, St.Inv]; decide, by decide⟩
+example : WF ⟨false⟩ ⟨3, [1, 2], 0⟩ (.svUnsafeSetSize .nontriv 4) ∧ pre ⟨false⟩ ⟨3, [1, 2], 0⟩ (.svUnsafeSetSize .nontriv 4) = false ∧
+    WF ⟨true⟩ ⟨3, [1, 2], 0⟩ (.ivUnsafeSetSize (U64 - 1)) ∧ pre ⟨true⟩ ⟨3, [1, 2], 0⟩ (.ivUnsafeSetSize (U64 - 1)) = false ∧
+    WF ⟨true⟩ ⟨4, [97], 0⟩ (.strUnsafeSetSize 1) ∧ pre ⟨true⟩ ⟨4, [97], 0⟩ (.strUnsafeSetSize 1) = true ∧
+    WF ⟨false⟩ ⟨3, [1, 2], 0⟩ (.svUnsafeDestroy 1 3) ∧ pre ⟨false⟩ ⟨3, [1, 2], 0⟩ (.svUnsafeDestroy 1 3) = false ∧
+    WF ⟨false⟩ ⟨0, [], 0⟩ .ivPop ∧ pre ⟨false⟩ ⟨0, [], 0⟩ .ivPop = false :=
+  ⟨by simp only [WF, StorOk, St.Inv]; decide, by decide, by simp only [WF]; decide, by decide, by simp only [WF]; decide, by decide,
+   by simp only [WF]; decide, by decide, by simp only [WF, St.Inv]; decide, by decide⟩
+
+/-- `bitset::to_ulong()` / `to_ullong()` (`digits` = the width of the result type): when the value of the bitset can be
+    represented ([bitset.members]), the call returns it (printed as low / high 32-bit half) - none of the checks it goes
+    through (`not test(i)` in the fits loop, `test`, `unchecked_test`, `set_bit`) fires, nothing outside the bits is read. -/
+theorem toUnsigned_fits (d : Nat) (cfg : Cfg) (s : St) (h : bitsVal s.elems < 2 ^ d) :
+    run (.bsToU d) cfg s = .ok [((bitsVal s.elems % 4294967296 : Nat) : Int), ((bitsVal s.elems / 4294967296 : Nat) : Int)] s := by
+  have hok : pre cfg s (.bsToU d) = true := by simp [pre, doc, h]
+  exact valid_never_asserts (.bsToU d) cfg s rfl trivial hok
+
+/-- … and when it cannot (std::bitset throws overflow_error exactly here) the handler runs at the `not test(i)` site of
+    `to_unsigned_type` with the bitset unchanged. -/
+theorem toUnsigned_overflow (d : Nat) (cfg : Cfg) (s : St) (h : 2 ^ d ≤ bitsVal s.elems) :
+    run (.bsToU d) cfg s = .assert BS.kToU s := by
+  have hbad : pre cfg s (.bsToU d) = false := by simp [pre, doc]; omega
+  obtain ⟨k, hk, hm⟩ := violation_asserts (.bsToU d) cfg s rfl trivial hbad
+  simp only [doc, List.mem_singleton, Prod.mk.injEq] at hm
+  rw [hk, hm.1]; rfl
+
+/-- the standard's clause and the condition the code tests are the same: the value is representable in `d` digits iff no
+    bit at a position `>= d` is set -/
+theorem toUnsigned_representable_iff (l : List Int) (d : Nat) :
+    bitsVal l < 2 ^ d ↔ (l.drop d).all (fun b => b == 0) = true := by
+  rw [bitsVal_lt_iff]
+  generalize l.drop d = m
+  induction m with
+  | nil => simp [bitsVal]
+  | cons b bs ih =>
+    simp only [bitsVal, List.all_cons, Bool.and_eq_true, beq_iff_eq, ← ih]
+    by_cases hb : b = 0 <;> simp [hb] <;> omega
+
+/-- samples: bitset<70> with bit 64 set, `to_ullong()` (64 digits) overflows; bitset<5> = 0b01101 returns 13 -/
+example : 2 ^ 64 ≤ bitsVal (List.replicate 64 0 ++ [1, 0, 0, 0, 0, 0]) ∧ bitsVal [1, 0, 1, 1, 0] = 13 := by decide
 
 /-- F-C05-replace-pre, the provable part: a `replace(pos, count, ...)` call outside the excluded class
     (`pos + count < size()`, hence valid) returns the specified result and never reaches the handler. -/
